@@ -8,6 +8,7 @@ package main
 // working across the extraction. Soundness: only facts common to ALL ways of producing the outcome are used.
 
 import (
+	"go/ast"
 	"go/types"
 	"strings"
 
@@ -437,4 +438,125 @@ func (w *World) fieldWritesOn(fn *ssa.Function, obj ssa.Value, typePrefix string
 		}
 	}
 	return out
+}
+
+// forEachInstrWithHelpers visits the instructions of fn and, one level down, those of every in-module helper it calls
+// directly; while a helper's body is visited its parameters render as the arguments of that call.
+func forEachInstrWithHelpers(fn *ssa.Function, visit func(in ssa.Instruction)) {
+	for _, b := range fn.Blocks {
+		for _, in := range b.Instrs {
+			visit(in)
+			cl, ok := in.(*ssa.Call)
+			if !ok {
+				continue
+			}
+			h := cl.Call.StaticCallee()
+			if h == nil || !InModule(h) || len(h.Blocks) == 0 || h == fn {
+				continue
+			}
+			saved, savedV := exprParamSubst, valueParamSubst
+			next, nextV := map[*ssa.Parameter]string{}, map[*ssa.Parameter]ssa.Value{}
+			for i, p := range h.Params {
+				if i < len(cl.Call.Args) {
+					next[p] = Expr(cl.Call.Args[i])
+					nextV[p] = cl.Call.Args[i]
+				}
+			}
+			exprParamSubst, valueParamSubst = next, nextV
+			for _, b2 := range h.Blocks {
+				for _, i2 := range b2.Instrs {
+					visit(i2)
+				}
+			}
+			exprParamSubst, valueParamSubst = saved, savedV
+		}
+	}
+}
+
+var staticCallersCache map[*ssa.Function][]*ssa.Call
+
+// staticCallers: the static call sites of f in the module.
+func (w *World) staticCallers(f *ssa.Function) []*ssa.Call {
+	if staticCallersCache == nil {
+		staticCallersCache = map[*ssa.Function][]*ssa.Call{}
+		for fn := range w.AllFuncs() {
+			if fn.Blocks == nil || !InModule(fn) {
+				continue
+			}
+			for _, b := range fn.Blocks {
+				for _, in := range b.Instrs {
+					if cl, ok := in.(*ssa.Call); ok {
+						if g := cl.Call.StaticCallee(); g != nil && InModule(g) {
+							staticCallersCache[g] = append(staticCallersCache[g], cl)
+						}
+					}
+				}
+			}
+		}
+	}
+	return staticCallersCache[f]
+}
+
+// inCallerContext runs body with the parameters of fn standing for the arguments of its call site when fn is an
+// unexported function with exactly one static call site (a block that was moved out of its only user).
+func (w *World) inCallerContext(fn *ssa.Function, body func()) {
+	cs := w.staticCallers(fn)
+	if len(cs) != 1 || ast.IsExported(fn.Name()) || cs[0].Parent() == fn {
+		body()
+		return
+	}
+	cl := cs[0]
+	saved, savedV := exprParamSubst, valueParamSubst
+	next, nextV := map[*ssa.Parameter]string{}, map[*ssa.Parameter]ssa.Value{}
+	for i, p := range fn.Params {
+		if i < len(cl.Call.Args) {
+			next[p] = Expr(cl.Call.Args[i])
+			nextV[p] = cl.Call.Args[i]
+		}
+	}
+	exprParamSubst, valueParamSubst = next, nextV
+	body()
+	exprParamSubst, valueParamSubst = saved, savedV
+}
+
+// familyOf: fn and the unexported in-module functions it calls directly that have no other caller (blocks moved out
+// of fn); rules that look for a construct "in fn" look in the family.
+func (w *World) familyOf(fn *ssa.Function) []*ssa.Function {
+	out := []*ssa.Function{fn}
+	seen := map[*ssa.Function]bool{fn: true}
+	for _, b := range fn.Blocks {
+		for _, in := range b.Instrs {
+			cl, ok := in.(*ssa.Call)
+			if !ok {
+				continue
+			}
+			h := cl.Call.StaticCallee()
+			if h == nil || seen[h] || !InModule(h) || len(h.Blocks) == 0 || ast.IsExported(h.Name()) || len(w.staticCallers(h)) != 1 {
+				continue
+			}
+			seen[h] = true
+			out = append(out, h)
+		}
+	}
+	return out
+}
+
+// callsInto: in is a call whose (unexported, single-caller) callee contains an instruction satisfying p.
+func (w *World) callsInto(in ssa.Instruction, p func(ssa.Instruction) bool) bool {
+	cl, ok := in.(*ssa.Call)
+	if !ok {
+		return false
+	}
+	h := cl.Call.StaticCallee()
+	if h == nil || !InModule(h) || len(h.Blocks) == 0 || ast.IsExported(h.Name()) || len(w.staticCallers(h)) != 1 {
+		return false
+	}
+	for _, b := range h.Blocks {
+		for _, i2 := range b.Instrs {
+			if p(i2) {
+				return true
+			}
+		}
+	}
+	return false
 }
